@@ -126,7 +126,7 @@ def check(prop: str) -> int:
                 if evs:
                     jobs.append((init, evs, older, newer))
         ctx = multiprocessing.get_context("fork")
-        with ctx.Pool(16) as pool:
+        with ctx.Pool(16, initializer=common.limit_worker) as pool:
             runs = pool.map(_exec_pair, jobs, chunksize=32)
         verdicts, states = judge(runs, workdir, 16)
         rep.cov["states"] += states
